@@ -446,19 +446,23 @@ impl Kit {
             None => "none".to_string(),
             Some(s) => self.params_label_by_hash(s),
         };
+        let avk = self.avk_label(&c.aggregate_verification_key.to_json_hex().unwrap());
+        let sig_ok = if genesis { false } else { self.multi_sig_ok(c) };
         json!({
             "id": Kit::short(&c.hash),
             "prev": Kit::short(&c.previous_hash),
             "epoch": (*c.epoch).min(1_000_000),
             "kind": if genesis { "genesis" } else { "std" },
-            "avk": self.avk_label(&c.aggregate_verification_key.to_json_hex().unwrap()),
+            "avk": avk.clone(),
             "params": self.params_label_by_hash(&c.metadata.protocol_parameters.compute_hash()),
             "msgEpoch": msg_epoch,
             "nextAvk": next_avk,
             "nextParams": next_params,
             "hashOk": hash_ok,
             "signedMsgOk": c.protocol_message.compute_hash() == c.signed_message,
-            "sigOk": if genesis { false } else { self.multi_sig_ok(c) },
+            "sigOk": sig_ok,
+            // the contract's reading of "valid under its own key": signed by the key set it names
+            "sigBy": if sig_ok { avk } else { "none".to_string() },
             "genSigOk": if genesis { self.genesis_sig_ok(c) } else { false },
         })
     }
